@@ -3,9 +3,11 @@
    examples, refutation witnesses and Print Assumptions.
 
    Vocabulary.  [resolve pi P] is C16's model of resolver.Resolve (Model/Resolver.v),
-   Go's randomised map iteration being the oracle [pi] (any permutation, each time
-   it is asked: [perm_oracle]); [names_ok P]: function names are not empty (the
-   parser).  [final_equiv F F']: two results have the same type for every variable
+   generic in the order [pi] in which the keys of each iterated map are seen (any
+   permutation, each time it is asked: [perm_oracle]).  Since the repair of
+   F-C19-1/1b/2 the code sorts those keys: what Go's randomised iteration delivers
+   ([pi]) is sorted before use, the implementation is [resolve (sorting pi) P]
+   (= resolve_impl pi P).  [names_ok P]: function names are not empty (the parser).  [final_equiv F F']: two results have the same type for every variable
    and parameter, the same global indexes and the same local indexes;
    [lookup_final F fn v] is ResolvedProgram.LookupVar (scope, type, index) on a
    result - with func_info (LookupFunc, which does not depend on the run) all the
@@ -15,10 +17,41 @@
    Gen/ProgramWrites.v: the alias analysis of the repository source (translator/gen_c19.go). *)
 From Verif Require Import Lib.Base Model.Resolver Model.Determinism Proofs.Resolver Proofs.ResolverExact
   Proofs.ResolverFlat Proofs.ResolverSound Proofs.DeterminismSort Proofs.DeterminismDom Proofs.DeterminismPerm
-  Proofs.Determinism Proofs.DeterminismWitness Proofs.DeterminismTables Proofs.ResolverCutoff Gen.ProgramWrites.
+  Proofs.Determinism Proofs.DeterminismSorted Proofs.DeterminismWitness Proofs.DeterminismTables Proofs.ResolverCutoff
+  Gen.ProgramWrites.
 From Coq Require Import Permutation String.
 
 (* ============ 1. PARSING IS DETERMINISTIC ============================================== *)
+
+(* THE FULL STATEMENT.  For every program - valid or not - and any two map iteration
+   orders the resolver returns the SAME result: same verdict, same error, same tables
+   (Leibniz equality of the whole result; no guard, not even names_ok). *)
+Theorem C19_parse_deterministic : forall (pi pi' : oracle) (P : program),
+  perm_oracle pi -> perm_oracle pi' -> resolve (sorting pi) P = resolve (sorting pi') P.
+Proof. exact (parse_deterministic cutoff). Qed.
+Print Assumptions C19_parse_deterministic.
+
+Definition C19_full_statement : Prop :=
+  forall pi pi' P, perm_oracle pi -> perm_oracle pi' ->
+    same_result (resolve_impl pi P) (resolve_impl pi' P).
+
+Theorem C19_full_statement_holds : C19_full_statement.
+Proof.
+  intros pi pi' P Hpi Hpi'. unfold resolve_impl, resolve.
+  rewrite (parse_deterministic cutoff pi pi' P Hpi Hpi'). apply same_result_refl.
+Qed.
+Print Assumptions C19_full_statement_holds.
+
+(* the implementation is C16's model under the oracle "sorted": a permutation oracle,
+   so every theorem of C16 (sound, complete, exact up to the cut-off, no panic) is a
+   theorem about the implementation; and it is the run the model runner computes *)
+Theorem C19_impl_is_instance : forall (pi : oracle) (P : program),
+  perm_oracle pi -> perm_oracle (sorting pi) /\ resolve (sorting pi) P = resolve sort_oracle P.
+Proof. exact (fun pi P Hpi => conj (sorting_perm pi Hpi) (impl_is_sorted_order cutoff pi P Hpi)). Qed.
+Print Assumptions C19_impl_is_instance.
+
+(* ---- what holds for ANY order of the walk (also for the code before the repair, and
+   for whatever order a later change may choose): the rest of this section ---- *)
 
 (* TYPES AND INDEXES (no guard).  Two accepted runs of the resolver on the same
    program, under any two map iteration orders, agree on the type of every
@@ -61,14 +94,15 @@ Theorem C19_accepted_wf : forall (pi : oracle) (P : program) (F : final),
 Proof. exact (accepted_wf0 cutoff). Qed.
 Print Assumptions C19_accepted_wf.
 
-(* VERDICT (partial: the guard excludes the 100-pass cut-off, finding F-C19-2).
+(* VERDICT under an arbitrary walk order (the guard excludes the 100-pass cut-off: there
+   the order decides, see C19_ex_walk_order_decides_verdict).
    For EVERY program - valid or not - acceptance does not depend on the map order. *)
-Theorem C19_verdict_deterministic_partial : forall (pi pi' : oracle) (P : program),
+Theorem C19_verdict_any_order : forall (pi pi' : oracle) (P : program),
   perm_oracle pi -> perm_oracle pi' -> names_ok P ->
   resolve pi P <> RErr ETooManyIter -> resolve pi' P <> RErr ETooManyIter ->
   ((exists F, resolve pi P = ROk F) <-> (exists F', resolve pi' P = ROk F')).
 Proof. exact (verdict_deterministic_partial cutoff). Qed.
-Print Assumptions C19_verdict_deterministic_partial.
+Print Assumptions C19_verdict_any_order.
 
 (* ENUMERATION.  Whatever the map order, the outcome is one of the outcomes of
    resolve_order over the permutations of the function list: the quantification
@@ -78,13 +112,14 @@ Theorem C19_outcome_enumerated : forall (pi : oracle) (P : program),
 Proof. exact (outcome_enumerated cutoff). Qed.
 Print Assumptions C19_outcome_enumerated.
 
-(* ERROR MESSAGE (partial: guard = the error set over all orders of the functions
-   is a singleton, finding F-C19-1 excluded). *)
-Theorem C19_error_deterministic_partial : forall (pi pi' : oracle) (P : program) (e e' : rerr),
+(* ERROR MESSAGE under an arbitrary walk order (guard = the error set over all orders of
+   the functions is a singleton; otherwise the order decides, see
+   C19_ex_walk_order_decides_error). *)
+Theorem C19_error_any_order : forall (pi pi' : oracle) (P : program) (e e' : rerr),
   perm_oracle pi -> perm_oracle pi' -> names_ok P -> one_error cutoff P = true ->
   resolve pi P = RErr e -> resolve pi' P = RErr e' -> e = e'.
 Proof. exact (error_deterministic_partial cutoff). Qed.
-Print Assumptions C19_error_deterministic_partial.
+Print Assumptions C19_error_any_order.
 
 (* a program with at most one function: the whole result is determined *)
 Theorem C19_single_function_deterministic : forall (pi pi' : oracle) (P : program),
@@ -93,85 +128,51 @@ Theorem C19_single_function_deterministic : forall (pi pi' : oracle) (P : progra
 Proof. exact (single_function_deterministic cutoff). Qed.
 Print Assumptions C19_single_function_deterministic.
 
-(* THE WHOLE RESULT (partial: both guards): same verdict, same error, same types and indexes *)
-Theorem C19_parse_deterministic_partial : forall (pi pi' : oracle) (P : program),
+(* THE WHOLE RESULT under arbitrary walk orders (both guards): same verdict, same error,
+   same types and indexes *)
+Theorem C19_result_any_order : forall (pi pi' : oracle) (P : program),
   perm_oracle pi -> perm_oracle pi' -> names_ok P ->
   resolve pi P <> RErr ETooManyIter -> resolve pi' P <> RErr ETooManyIter ->
   one_error cutoff P = true ->
   same_result (resolve pi P) (resolve pi' P).
 Proof. exact (parse_deterministic_partial cutoff). Qed.
-Print Assumptions C19_parse_deterministic_partial.
+Print Assumptions C19_result_any_order.
 
-(* ---- the full statement, and why it is false for the code as it is ---- *)
+(* ---- why the sort is load-bearing: the order of the walk IS observable ---- *)
 
-Definition C19_full_statement : Prop :=
-  forall pi pi' P, perm_oracle pi -> perm_oracle pi' -> names_ok P ->
-    same_result (resolve pi P) (resolve pi' P).
+(* two functions with independent type errors: the generic resolver reports f's or g's
+   error depending on which is walked first (the former F-C19-1); sorted: f's *)
+Example C19_ex_walk_order_decides_error :
+  names_ok two_bad /\
+  resolve (front_oracle [102]) two_bad = RErr (EUse TArray n_a TScalar) /\
+  resolve (front_oracle [103]) two_bad = RErr (EUse TArray n_b TScalar) /\
+  resolve sort_oracle two_bad = RErr (EUse TArray n_a TScalar).
+Proof. exact (conj two_bad_names (conj two_bad_f_first (conj two_bad_g_first two_bad_sorted))). Qed.
 
-Definition C19_error_statement : Prop :=
-  forall pi pi' P e e', perm_oracle pi -> perm_oracle pi' -> names_ok P ->
-    resolve pi P = RErr e -> resolve pi' P = RErr e' -> e = e'.
+(* a ring of 101 functions forwarding a parameter, meeting the precondition: accepted when
+   topoSort starts at f001, "too many iterations" when it starts at the top level (the
+   former F-C19-2: the verdict depended on the map order); sorted: the top level first *)
+Example C19_ex_walk_order_decides_verdict :
+  wf ring = true /\
+  is_ok (resolve (front_oracle (fN 1)) ring) = true /\
+  resolve (front_oracle []) ring = RErr ETooManyIter /\
+  resolve sort_oracle ring = RErr ETooManyIter.
+Proof. exact (conj ring_wf (conj ring_accepted (conj ring_rejected ring_sorted))). Qed.
 
-Definition C19_verdict_statement : Prop :=
-  forall pi pi' P, perm_oracle pi -> perm_oracle pi' -> wf P = true ->
-    is_ok (resolve pi P) = is_ok (resolve pi' P).
+(* DISASSEMBLY NAMES - full.  compiler.Program.nativeFuncNames (what Disassemble prints
+   after CallNative) is filled from a map iteration over the functions, entering the
+   native ones only (repair of F-C19-3): the entry for every index is independent of
+   the order in which the map delivers the functions. *)
+Theorem C19_disassembly_names : forall (P : program) (order order' : list name) (i : Z),
+  Permutation order order' -> name_shown P order i = name_shown P order' i.
+Proof. exact name_shown_deterministic. Qed.
+Print Assumptions C19_disassembly_names.
 
-(* F-C19-1: two functions with independent type errors; which is reported depends on
-   the order in which the map of functions is iterated *)
-Theorem C19_error_deterministic_refuted : ~ C19_error_statement.
-Proof.
-  intros H.
-  pose proof (H (front_oracle [102]) (front_oracle [103]) two_bad _ _
-                (front_oracle_perm _) (front_oracle_perm _) two_bad_names two_bad_f_first two_bad_g_first) as E.
-  discriminate E.
-Qed.
-Print Assumptions C19_error_deterministic_refuted.
-
-(* F-C19-2: a ring of 200 functions forwarding a parameter: accepted when topoSort
-   happens to start at f150 (100 passes suffice), rejected with "too many
-   iterations" when it starts at the top level - the verdict itself depends on
-   the map order.  The program meets the precondition. *)
-Theorem C19_verdict_deterministic_refuted : ~ C19_verdict_statement.
-Proof.
-  intros H.
-  pose proof (H (front_oracle (fN 150)) (front_oracle []) ring
-                (front_oracle_perm _) (front_oracle_perm _) ring_wf) as E.
-  rewrite ring_accepted, ring_rejected in E. discriminate E.
-Qed.
-Print Assumptions C19_verdict_deterministic_refuted.
-
-Theorem C19_full_statement_refuted : ~ C19_full_statement.
-Proof.
-  intros H.
-  pose proof (H (front_oracle [102]) (front_oracle [103]) two_bad
-                (front_oracle_perm _) (front_oracle_perm _) two_bad_names) as E.
-  rewrite two_bad_f_first, two_bad_g_first in E. cbn [same_result] in E. discriminate E.
-Qed.
-Print Assumptions C19_full_statement_refuted.
-
-(* DISASSEMBLY NAMES.  compiler.Program.nativeFuncNames (what Disassemble prints after
-   CallNative) is filled from a map iteration over ALL functions.  Partial: the entry
-   for index i does not depend on the map order provided no two functions share
-   index i ... *)
-Theorem C19_disassembly_names_partial : forall (P : program) (order order' : list name) (i : Z),
-  Permutation order order' ->
-  (forall n n', In n order -> In n' order -> shown_hit P i n = true -> shown_hit P i n' = true -> n = n') ->
-  name_shown P order i = name_shown P order' i.
-Proof. exact name_shown_deterministic_partial. Qed.
-Print Assumptions C19_disassembly_names_partial.
-
-(* ... F-C19-3: a Go function and an AWK function do share one (both are numbered from 0):
-   function f(a) { natv(a) } is disassembled as "CallNative f" or "CallNative natv" *)
-Definition C19_disassembly_statement : Prop :=
-  forall P order order' i, Permutation order order' -> name_shown P order i = name_shown P order' i.
-
-Theorem C19_disassembly_names_refuted : ~ C19_disassembly_statement.
-Proof.
-  intros H. destruct native_clash_shown as [_ [H1 H2]].
-  pose proof (H native_clash [n_natv; [102]] [[102]; n_natv] 0%Z (perm_swap _ _ _)) as E.
-  rewrite H1, H2 in E. discriminate E.
-Qed.
-Print Assumptions C19_disassembly_names_refuted.
+(* the former witness: function f(a) { natv(a) } with the Go function natv, both index 0 *)
+Example C19_ex_native_clash :
+  name_shown native_clash [n_natv; [102]] 0%Z = Some n_natv /\
+  name_shown native_clash [[102]; n_natv] 0%Z = Some n_natv.
+Proof. exact (proj2 native_clash_shown). Qed.
 
 (* ============ 2. A PARSED PROGRAM IS READ-ONLY (table theorems) ========================= *)
 
@@ -217,6 +218,17 @@ Proof.
           (conj globals_escape_only_to_known_functions analysis_assumptions))).
 Qed.
 Print Assumptions C19_interp_state_private.
+
+(* NO OTHER ORDER-SENSITIVE SITE.  The `for ... range <map>` statements of the front end
+   (parser, lexer, internal/ast, internal/resolver, internal/compiler), with their complete
+   text, and the callers of IterVars/IterFuncs are exactly the classified ones
+   (Proofs/DeterminismTables.v gives the reason for each: sorted before use / iterations
+   independent / minimum under a total order / writes at distinct indexes) *)
+Theorem C19_map_iteration_sites :
+  list_eqb site5_eqb map_ranges (map fst classified_map_ranges) = true /\
+  list_eqb site5_eqb iter_callers (map fst classified_iter_callers) = true.
+Proof. exact (conj map_ranges_classified iter_callers_classified). Qed.
+Print Assumptions C19_map_iteration_sites.
 
 (* ============ non-vacuity ================================================================= *)
 
